@@ -3,7 +3,7 @@
 
 A statement-level imperative-to-functional translation of the helpers of core/utils.py, of the classes
 TruthTable and TruthTableModel, and of the constructor and protocol methods of PyFunction and PyFunctionModel
-(not their static factories and PyFunctionModel.define, which build and return closures).  Every function / method of COVERED becomes `gen_<name>` (methods:
+(not their static factories and PyFunctionModel.define, which build and return closures: translator/t26_py_factories.py, built on this one, regenerates those).  Every function / method of COVERED becomes `gen_<name>` (methods:
 `gen_<Class>_<name>`); Proofs/TruthTableGen*.v prove each of them equal to the hand model Model/FuncProto.v
 (the object of the C12 theorems), so an edit of a covered body changes a generated definition and breaks an
 equality lemma.  Anything outside the grammar raises TranslatorError (the check then fails closed).  COVERED is
@@ -665,6 +665,12 @@ MUTATORS = {'insert', 'append', 'extend', 'remove', 'pop', 'clear', 'sort', 'rev
 
 
 class FnTr:
+    # hook for translators built on this one (T26 admits `assert`)
+    FORBIDDEN_NODES = (ast.Global, ast.Nonlocal, ast.While, ast.With, ast.Try, ast.Delete, ast.AugAssign,
+                       ast.Lambda, ast.ClassDef, ast.AsyncFunctionDef, ast.Await, ast.NamedExpr,
+                       ast.Import, ast.ImportFrom, ast.Assert, ast.Starred, ast.DictComp, ast.SetComp,
+                       ast.Dict, ast.Set)
+
     def __init__(self, unit, mod, node, cls, coqname, inst, outer=None):
         self.u, self.mod, self.node, self.cls, self.coqname, self.inst = unit, mod, node, cls, coqname, inst
         self.outer = outer          # the enclosing FnTr of a closure
@@ -697,10 +703,7 @@ class FnTr:
             if isinstance(n, ast.Name) and isinstance(n.ctx, ast.Store):
                 self.store_count[n.id] = self.store_count.get(n.id, 0) + 1
         for n in walk_no_defs(body):
-            if isinstance(n, (ast.Global, ast.Nonlocal, ast.While, ast.With, ast.Try, ast.Delete, ast.AugAssign,
-                              ast.Lambda, ast.ClassDef, ast.AsyncFunctionDef, ast.Await, ast.NamedExpr,
-                              ast.Import, ast.ImportFrom, ast.Assert, ast.Starred, ast.DictComp, ast.SetComp,
-                              ast.Dict, ast.Set)):
+            if isinstance(n, self.FORBIDDEN_NODES):
                 if isinstance(n, ast.Nonlocal) and self.outer is not None:
                     continue
                 if isinstance(n, ast.Starred):
@@ -901,6 +904,10 @@ class Stmts:
             return self.st_def(s, env, cont)
         if isinstance(s, ast.Expr):
             return self.st_expr(s, env, cont)
+        return self.st_other(s, env, ctx, cont)
+
+    def st_other(self, s, env, ctx, cont):
+        """hook: a statement kind this translator does not know"""
         fail(s, 'statement outside grammar')
 
     # ---- return
